@@ -26,6 +26,13 @@ def run(ctx):
     ctx.rule("R1", "op-level analysis: one `|= Effects::V` per flag, only under `op is G::V` of the same name")
     ctx.rule("R2", "byte scan: every `return true` is guarded by byte == opcode(G::V) and effects.contains(Effects::V), same V; all flags covered")
     ctx.rule("R3", "byte scan: ops with immediates advance the same iterator by exactly num_arg_bytes and do not return; nothing else advances it")
+    if not getattr(ctx, "_src", None):
+        # the one consumer of the byte-level query in the workspace asks about exactly the Post* flags (C03 R3): a query for a
+        # neighbouring flag gives the checker a wrong answer to "does this program read post-state" although the scan is exact
+        from . import C03
+        from .C19 import _Only
+        ctx.rule("R4", "the checker's deferral query names every Post* effect flag and nothing else is or-ed in (C03 R3)")
+        C03.r3(_Only(ctx, "R3", "R4"), prog)
     flags = {k[len(EFF):]: int(v["int"]) for k, v in prog.consts.items() if k.startswith(EFF) and "int" in v and re.match(r"^[A-Z]\w+$", k[len(EFF):])}
     ctx.floor("R1", "Effects flags", len(flags), 6)
     vals = sorted(flags.values())
